@@ -1121,7 +1121,11 @@ Proof.
 Qed.
 
 Lemma C_fragment_definition t fuel : sigtok t -> consumes_at t (g_fragment_definition fuel).
-Proof. intros Hs. unfold g_fragment_definition. apply C_node; [exact Hs|]. apply C_bind1; [apply C_bump|mtail]. Qed.
+Proof.
+  intros Hs. unfold g_fragment_definition. eapply C_keepv; [apply (peek_is_some TkStringValue)|].
+  destruct (tkind_eqb (tok_kind t) TkStringValue); [apply C_err_and_pop|].
+  apply C_node; [exact Hs|]. apply C_bind1; [apply C_bump|mtail].
+Qed.
 
 Ltac kw_case Hs Hk :=
   match goal with
